@@ -370,6 +370,91 @@ Section SendToFxIbc.
   Definition send_to_fx_ibc_tx (s : S) : S * bool := tx send_to_fx_ibc s.
 End SendToFxIbc.
 
+(* ------------------------------------------------------------------------------------------ *)
+(** * Outgoing bridge calls coming back: result claims and time-outs (bridge_call_out.go BridgeCallResultHandler,
+      bridge_call_refund.go HandleOutgoingBridgeCallRefund, abci.go cleanupTimeOutBridgeCall) *)
+
+Section OutgoingCalls.
+  Variable S : Type.
+  (* HandleOutgoingBridgeCallRefund(ctx, call): mint / unlock the bridge tokens to the refund address, convert them to the base
+     coin and (for a call made from the EVM) into ERC-20.  It has NO error return: every failure inside — refund address
+     blocked by the bank, token pair or erc20 module switched off, module short of coins — is a panic (None) *)
+  Variable refund : Z -> S -> option S.
+  Variable delete_record : Z -> S -> S.     (* DeleteOutgoingBridgeCallRecord *)
+  Variable consume : S -> S.                (* ExecuteClaim: DeletePendingExecuteClaim, CreateBridgeAccount *)
+
+  (* BridgeCallResultHandler(ctx, claim): unknown nonce panics; success: delete; failure: refund, delete.  No branch, no error *)
+  Definition result_handler (id : Z) (found success : bool) (s : S) : option S :=
+    if negb found then None
+    else if success then Some (delete_record id s)
+    else match refund id s with None => None | Some s1 => Some (delete_record id s1) end.
+
+  (* ExecuteClaim for a BridgeCallResult claim as a transaction: a panic fails it and nothing stays (claim still pending) *)
+  Definition result_tx (id : Z) (found success : bool) (s : S) : S * bool :=
+    match result_handler id found success (consume s) with Some s' => (s', true) | None => (s, false) end.
+
+  (* cleanupTimeOutBridgeCall(ctx): every call whose timeout lies below the external height, in store order: refund, delete.
+     One refund that panics aborts the whole clean-up — and with it whatever called it *)
+  Fixpoint cleanup_calls (ids : list Z) (s : S) : option S :=
+    match ids with
+    | [] => Some s
+    | i :: r => match refund i s with None => None | Some s1 => cleanup_calls r (delete_record i s1) end
+    end.
+
+  (* the vote transaction again (claim_tx), now with the clean-up as it is: able to panic.  timed_out = the calls that
+     the external height reported by THIS claim has overtaken *)
+  Variable mark_observed : S -> S.
+  Variable handler_p : S -> option (result S).
+  Variable record_vote finish_vote : S -> S.
+  Variable timed_out : S -> list Z.
+  Definition claim_tx_p (pre : S) : S * Z :=
+    let s1 := mark_observed (record_vote pre) in
+    match handler_p s1 with
+    | None => (pre, 2)
+    | Some r =>
+        let (s2, cls) := match r with Ok x => (commit s1 x, 0) | Err x => (discard s1 x, 1) end in
+        match cleanup_calls (timed_out s2) s2 with
+        | None => (pre, 2)                      (* the panic unwinds the whole transaction *)
+        | Some s3 => (finish_vote s3, cls)
+        end
+    end.
+End OutgoingCalls.
+
+(* ------------------------------------------------------------------------------------------ *)
+(** * Histories of boundary crossings *)
+
+(* one crossing of a tolerated-failure boundary, over a common state type, with the sub-steps it was made with *)
+Inductive crossing (S : Type) : Type :=
+| XAttestation (handler : S -> result S) (mark cleanup : S -> S)
+| XGov (msgs : list (S -> result S)) (pre_exec : S -> S) (set_status : bool -> S -> S)
+| XIbcRecv (parse_ok : bool) (transfer_recv hook : S -> result S) (tao : S -> S) (write_ack : bool -> S -> S)
+| XTx (f : S -> result S).                 (* a plain transaction: an error is not tolerated, nothing stays *)
+Arguments XAttestation {S}. Arguments XGov {S}. Arguments XIbcRecv {S}. Arguments XTx {S}.
+
+(* what the code does *)
+Definition cross {S} (x : crossing S) (s : S) : S :=
+  match x with
+  | XAttestation h m c => fst (try_attestation S h m c s)
+  | XGov ms p st => fst (gov_execute S ms p st s)
+  | XIbcRecv po tr hk tao wa => fst (core_recv S po tr hk tao wa s)
+  | XTx f => fst (tx f s)
+  end.
+
+(* what the property designates: the outcome of the sub-step if it succeeded, the designated outcome of its failure if not —
+   written without any cache branch, from the pre-state only *)
+Definition designated {S} (x : crossing S) (s : S) : S :=
+  match x with
+  | XAttestation h m c => match h (m s) with Ok x' => c x' | Err _ => att_designated S m c s end
+  | XGov ms p st => match run_steps ms (p s) with Ok x' => st true x' | Err _ => gov_designated S p st s end
+  | XIbcRecv po tr hk tao wa =>
+      if negb po then recv_designated S tao wa s else
+      match tr (tao s) with
+      | Err _ => recv_designated S tao wa s
+      | Ok c1 => match hk c1 with Ok c2 => wa true c2 | Err _ => recv_designated S tao wa s end
+      end
+  | XTx f => match f s with Ok x' => x' | Err _ => s end
+  end.
+
 (* designated outcome of a failed contract call: the claim is consumed and a refund bridge call for the
    deposited amounts exists; nobody's balance has changed (the deposit went out again as the refund) *)
 Definition bc_designated (m : bcmsg) (pre : bst) : bst :=
